@@ -202,3 +202,233 @@ Proof.
     intros _. exists [mkPart 200 300 1]. split; [reflexivity|]. split; [vm_compute; reflexivity|].
     left. exists (mkPart 200 300 1). cbn. repeat split; lia.
 Qed.
+
+(* ---------- second deepening pass: the remaining clauses at the observation points ---------- *)
+
+(* "every protocluster, candidate cluster and sub-region of the region is drawn exactly once, or as two linked
+   halves": the list returned by build_area_rows is, feature by feature, the concatenation of either ONE area
+   without group id, or TWO CONSECUTIVE areas with the same fresh non-zero group id, the kind of the feature,
+   the same height, the first ending at the record length and the second starting at 0 (relation drawn); the
+   features drawn, fs, are a permutation of: the candidate clusters that are drawn (all of them when the region
+   has sub-regions, otherwise those that are not of kind SINGLE), the sub-regions, and the protoclusters of
+   the region (the set returned by get_unique_protoclusters).  No hypothesis: any region, any input order. *)
+Theorem C19_build_complete : forall rloc N circ subs cands protos out,
+  build_area_rows rloc N circ subs cands protos = Ok out ->
+  exists fs g', Permutation fs (drawn_candidates subs cands ++ subs ++ protos) /\ drawn N 0 fs out g'.
+Proof. exact build_complete. Qed.
+Print Assumptions C19_build_complete.
+
+(* soundness of the decidable completeness test that the harness evaluates on every implementation output
+   (count_drawn): an output of the shape `drawn` is accepted and the count per kind is the number of features
+   of that kind *)
+Theorem C19_build_complete_decidable : forall N k g fs out g',
+  drawn N g fs out g' -> 0 <= g -> count_drawn N k out = Some (count_kind k fs).
+Proof. exact drawn_count. Qed.
+Print Assumptions C19_build_complete_decidable.
+
+(* "no two areas placed on the same row overlap in their full extents", at the observation point: any two
+   areas returned by build_area_rows with the same height have disjoint extents [neighbouring_start,
+   neighbouring_end) - C19_pack_no_overlap composed with the unrolling / splitting of origin-crossing areas and
+   with the numbering of the rows (every packed row gets its own height).  Hypotheses as in
+   C19_build_extents_in_range. *)
+Theorem C19_build_rows_disjoint : forall N circ rloc subs cands protos out,
+  wf_region N rloc ->
+  Forall (feat_ok N circ rloc) subs -> Forall (feat_ok N circ rloc) cands -> Forall (feat_ok N circ rloc) protos ->
+  build_area_rows rloc N circ subs cands protos = Ok out ->
+  ForallOrdPairs (fun a b => a_height a = a_height b -> a_ne a <= a_ns b \/ a_ne b <= a_ns a) out.
+Proof. exact build_rows_disjoint. Qed.
+Print Assumptions C19_build_rows_disjoint.
+
+(* the same as the boolean that the harness computes on the implementation's output *)
+Theorem C19_build_rows_disjoint_decidable : forall N circ rloc subs cands protos out,
+  wf_region N rloc ->
+  Forall (feat_ok N circ rloc) subs -> Forall (feat_ok N circ rloc) cands -> Forall (feat_ok N circ rloc) protos ->
+  build_area_rows rloc N circ subs cands protos = Ok out ->
+  pairwise extents_disjoint out = true.
+Proof. exact build_rows_disjoint_bool. Qed.
+Print Assumptions C19_build_rows_disjoint_decidable.
+
+(* what is drawn for one feature: its extent(s) in the coordinates of the region *)
+Theorem C19_build_feature_extents : forall N circ rloc f h conv grp st',
+  wf_region N rloc -> wf_feat_ring N f -> contains rloc (floc f) = true ->
+  (bridges rloc = true \/ fcrosses f = true -> circ = true) ->
+  add_area_from_feature rloc N (extend_over_origin rloc N circ) h (conv, grp) f = Ok st' ->
+  exists added, fst st' = conv ++ added /\ map ext added = emitted_extents rloc N f.
+Proof. exact area_emitted. Qed.
+Print Assumptions C19_build_feature_extents.
+
+(* non-vacuity (the layout of seed C19-seed3): a whole-record region whose sub-regions come in plain start
+   order, the last one crossing the origin and overlapping the first; plus an origin-crossing protocluster.
+   Three sub-region rows, the origin-crossing areas drawn as linked halves (groups 1 and 2). *)
+
+Example C19_build_complete_nonvacuous :
+  wf_region 1000 ex_whole /\
+  Forall (feat_ok 1000 true ex_whole) [ex_s0; ex_s1; ex_s2; ex_s3] /\ Forall (feat_ok 1000 true ex_whole) [ex_p0] /\
+  build_area_rows ex_whole 1000 true [ex_s0; ex_s1; ex_s2; ex_s3] [] [ex_p0]
+  = Ok [mkArea K_Sub 0 100 0 100 0 0 1; mkArea K_Sub 300 600 300 600 0 0 3; mkArea K_Sub 40 960 40 960 2 0 2;
+        mkArea K_Sub 900 1000 900 1000 4 1 4; mkArea K_Sub 0 50 0 50 4 1 4;
+        mkArea K_Proto 1000 1000 950 1000 6 2 0; mkArea K_Proto 10 30 0 80 6 2 7] /\
+  drawn 1000 0 [ex_s0; ex_s2; ex_s1; ex_s3; ex_p0]
+        [mkArea K_Sub 0 100 0 100 0 0 1; mkArea K_Sub 300 600 300 600 0 0 3; mkArea K_Sub 40 960 40 960 2 0 2;
+         mkArea K_Sub 900 1000 900 1000 4 1 4; mkArea K_Sub 0 50 0 50 4 1 4;
+         mkArea K_Proto 1000 1000 950 1000 6 2 0; mkArea K_Proto 10 30 0 80 6 2 7] 2.
+Proof.
+  assert (Hs : forall f p, floc f = [p] -> 0 <= ps p -> ps p < pe p -> pe p <= 1000 -> feat_ok 1000 true ex_whole f).
+  { intros f p E H0 H1 H2. split; [left; exists p; auto|]. split; [|auto].
+    rewrite E. unfold contains, ex_whole, part_contains. cbn [forallb existsb ps pe]. lia. }
+  assert (Hd : forall f a b, floc f = [mkPart a 1000 1; mkPart 0 b 1] -> 0 < a -> a < 1000 -> 0 < b -> b < a ->
+               feat_ok 1000 true ex_whole f).
+  { intros f a b E H0 H1 H2 H3. split; [right; exists (mkPart a 1000 1), (mkPart 0 b 1); cbn; repeat split; auto|].
+    split; [|auto]. rewrite E. unfold contains, ex_whole, part_contains. cbn [forallb existsb ps pe]. lia. }
+  split; [left; exists (mkPart 0 1000 1); cbn; repeat split; lia|].
+  split.
+  { apply Forall_cons; [eapply Hs; [reflexivity|cbn; lia..]|].
+    apply Forall_cons; [eapply Hs; [reflexivity|cbn; lia..]|].
+    apply Forall_cons; [eapply Hs; [reflexivity|cbn; lia..]|].
+    apply Forall_cons; [eapply Hd; [reflexivity|lia..]|]. apply Forall_nil. }
+  split; [apply Forall_cons; [eapply Hd; [reflexivity|lia..]|apply Forall_nil]|].
+  split; [vm_compute; reflexivity|].
+  apply drawn_one; [reflexivity..|]. apply drawn_one; [reflexivity..|]. apply drawn_one; [reflexivity..|].
+  apply drawn_two; [reflexivity..|]. apply drawn_two; [reflexivity..|]. constructor.
+Qed.
+
+(* an origin-crossing region with children in plain start order: the origin-crossing sub-region is tested
+   against every occupant of the first row (it overlaps the first one, drawn at 1010..1050) and opens a row *)
+Example C19_build_rows_disjoint_nonvacuous :
+  let rloc := [mkPart 800 1000 1; mkPart 0 50 1] in
+  let t0 := mkFeat 0 K_Sub [mkPart 10 50 1] None false 1 in
+  let t1 := mkFeat 1 K_Sub [mkPart 800 900 1] None false 2 in
+  let t2 := mkFeat 2 K_Sub [mkPart 950 1000 1; mkPart 0 30 1] None false 3 in
+  wf_region 1000 rloc /\ Forall (feat_ok 1000 true rloc) [t0; t1; t2] /\
+  build_area_rows rloc 1000 true [t0; t1; t2] [] []
+  = Ok [mkArea K_Sub 1010 1050 1010 1050 0 0 1; mkArea K_Sub 800 900 800 900 0 0 2;
+        mkArea K_Sub 950 1030 950 1030 2 0 3].
+Proof.
+  cbv zeta. split; [right; exists (mkPart 800 1000 1), (mkPart 0 50 1); cbn; repeat split; lia|].
+  split; [|vm_compute; reflexivity].
+  constructor; [|constructor; [|constructor; [|constructor]]].
+  - split; [left; exists (mkPart 10 50 1); cbn; repeat split; lia|]. split; [vm_compute; reflexivity|auto].
+  - split; [left; exists (mkPart 800 900 1); cbn; repeat split; lia|]. split; [vm_compute; reflexivity|auto].
+  - split; [right; exists (mkPart 950 1000 1), (mkPart 0 30 1); cbn; repeat split; lia|].
+    split; [vm_compute; reflexivity|auto].
+Qed.
+
+(* "every gene lies within the coordinate range announced for the region": for every region and every list of
+   genes (any number of exons, either strand, origin-crossing or not) that are well-formed and inside the
+   region, the coordinates emitted by convert_cds_features pass the in-range test against the start/end that
+   convert_regions announces (start <= gene start, gene start <= gene end + 1, gene end <= end; both halves of a
+   split gene included).  Guard gene_guard: no gene straddles the gap an origin-crossing region leaves on the
+   ring (finding gene_across_region_gap, F45, witness below). *)
+Theorem C19_genes_in_range : forall N rloc genes se,
+  wf_region N rloc -> Forall (wf_gene N rloc) genes -> Forall (fun g => gene_guard rloc g = true) genes ->
+  region_range rloc N = Ok se ->
+  forall grp, spec_orfs se (bridges rloc) (convert_cds_features rloc N grp genes) = true.
+Proof. exact genes_in_range. Qed.
+Print Assumptions C19_genes_in_range.
+
+(* "positions after the origin being shifted by the record length so that order along the drawing equals order
+   along the genome": in an origin-crossing region [s, N) + [0, e) every gene is emitted once, its 1-based start
+   and inclusive end being the unrolled positions of its first and last base, where unroll shifts a position x
+   by N exactly when x < s, i.e. exactly when it lies after the origin *)
+Theorem C19_genes_shifted : forall N rloc genes grp,
+  wf_region N rloc -> Forall (wf_gene N rloc) genes -> Forall (fun g => gene_guard rloc g = true) genes ->
+  bridges rloc = true ->
+  convert_cds_features rloc N grp genes =
+    map (fun g => mkOrf (unroll (loc_fstart rloc) N (loc_fstart g) + 1)
+                        (unroll (loc_fstart rloc) N (loc_fend g - 1) + 1)
+                        (strand_or_1 (lstrand g)) 0) genes.
+Proof. exact genes_unrolled. Qed.
+Print Assumptions C19_genes_shifted.
+
+(* in a region that does not cross the origin nothing is shifted; a gene that crosses the origin can only occur
+   when the region is the whole record and is emitted as two consecutive halves with the same non-zero group id,
+   (start, N) and (1, end) *)
+Theorem C19_genes_unwrapped_region : forall N r g grp more,
+  0 <= ps r -> ps r < pe r -> pe r <= N -> wf_gene N [r] g ->
+  (bridges g = false ->
+     convert_cds_features [r] N grp (g :: more) =
+       mkOrf (loc_fstart g + 1) (loc_fend g) (strand_or_1 (lstrand g)) 0 :: convert_cds_features [r] N grp more) /\
+  (bridges g = true ->
+     ps r = 0 /\ pe r = N /\
+     convert_cds_features [r] N grp (g :: more) =
+       mkOrf (loc_fstart g + 1) N (if lstrand g =? -1 then strand_or_1 (lstrand g) else 0) (grp + 1)
+       :: mkOrf 1 (loc_fend g) (if lstrand g =? -1 then 0 else strand_or_1 (lstrand g)) (grp + 1)
+       :: convert_cds_features [r] N (grp + 1) more /\
+     (0 <= grp -> grp + 1 <> 0)).
+Proof. exact genes_unwrapped_region. Qed.
+Print Assumptions C19_genes_unwrapped_region.
+
+(* non-vacuity of the gene theorems *)
+
+Example C19_genes_ex_wf_region : wf_region ex_N ex_rloc.
+Proof. right. exists (mkPart 800 1000 1), (mkPart 0 300 1). cbn. repeat split; try reflexivity; lia. Qed.
+
+Example C19_genes_ex_wf_genes : Forall (wf_gene ex_N ex_rloc) ex_genes.
+Proof.
+  unfold ex_genes.
+  apply Forall_cons; [wf_gene_tac|]. apply Forall_cons; [wf_gene_tac|].
+  apply Forall_cons; [wf_gene_tac|]. apply Forall_cons; [wf_gene_tac|]. apply Forall_nil.
+Qed.
+
+Example C19_genes_ex_guard : Forall (fun g => gene_guard ex_rloc g = true) ex_genes.
+Proof. repeat constructor. Qed.
+
+Example C19_genes_ex_range : region_range ex_rloc ex_N = Ok (800, 1300).
+Proof. reflexivity. Qed.
+
+Example C19_genes_ex_bridges : bridges ex_rloc = true /\ map bridges ex_genes = [false; false; true; true].
+Proof. split; reflexivity. Qed.
+
+Example C19_genes_ex_output :
+  convert_cds_features ex_rloc ex_N 0 ex_genes =
+    [mkOrf 851 900 1 0; mkOrf 1011 1040 (-1) 0; mkOrf 991 1020 1 0; mkOrf 981 1015 (-1) 0].
+Proof. vm_compute. reflexivity. Qed.
+
+(* the two theorems instantiated on the example: hypotheses hold, conclusions are the computed values *)
+Example C19_genes_ex_in_range : spec_orfs (800, 1300) (bridges ex_rloc) (convert_cds_features ex_rloc ex_N 0 ex_genes) = true.
+Proof. exact (genes_in_range ex_N ex_rloc ex_genes (800, 1300) C19_genes_ex_wf_region C19_genes_ex_wf_genes C19_genes_ex_guard C19_genes_ex_range 0). Qed.
+
+Example C19_genes_ex_unrolled :
+  map (fun g => mkOrf (unroll (loc_fstart ex_rloc) ex_N (loc_fstart g) + 1)
+                      (unroll (loc_fstart ex_rloc) ex_N (loc_fend g - 1) + 1)
+                      (strand_or_1 (lstrand g)) 0) ex_genes =
+    [mkOrf 851 900 1 0; mkOrf 1011 1040 (-1) 0; mkOrf 991 1020 1 0; mkOrf 981 1015 (-1) 0].
+Proof.
+  rewrite <- (genes_unrolled ex_N ex_rloc ex_genes 0 C19_genes_ex_wf_region C19_genes_ex_wf_genes C19_genes_ex_guard (proj1 C19_genes_ex_bridges)).
+  exact C19_genes_ex_output.
+Qed.
+
+(* an ordinary whole-record region with a gene that crosses the origin: two halves, same group *)
+Example C19_genes_ex_unwrapped :
+  let r := mkPart 0 1000 1 in
+  let g := [mkPart 990 1000 1; mkPart 0 20 1] in
+  wf_region 1000 [r] /\ wf_gene 1000 [r] g /\ wf_gene 1000 [r] [mkPart 5 9 1] /\ bridges g = true /\
+  convert_cds_features [r] 1000 0 [g; [mkPart 5 9 1]] = [mkOrf 991 1000 0 1; mkOrf 1 20 1 1; mkOrf 6 9 1 0] /\
+  spec_orfs (1, 1000) false [mkOrf 991 1000 0 1; mkOrf 1 20 1 1; mkOrf 6 9 1 0] = true.
+Proof.
+  cbv zeta. split; [left; eexists; split; [reflexivity|cbn; lia]|].
+  split; [|split]; [| |repeat split].
+  - split; [discriminate|]. split; [repeat (apply Forall_cons; [cbn; lia|]); apply Forall_nil|]. split; [reflexivity|].
+    intros _. split; eauto 8 using in_eq, in_cons.
+  - split; [discriminate|]. split; [repeat (apply Forall_cons; [cbn; lia|]); apply Forall_nil|]. split; [reflexivity|].
+    cbn. discriminate.
+Qed.
+
+(* the guard is necessary (finding F45 gene_across_region_gap) *)
+Example C19_gene_gap_witness :
+  let N := 30 in
+  let rloc := [mkPart 10 30 1; mkPart 0 9 1] in
+  let g := [mkPart 7 9 1; mkPart 10 11 1] in
+  wf_region N rloc /\ wf_gene N rloc g /\ gene_guard rloc g = false /\ class_gene_gap rloc [g] = true /\
+  region_range rloc N = Ok (10, 39) /\
+  convert_cds_features rloc N 0 [g] = [mkOrf 8 11 1 0] /\
+  spec_orfs (10, 39) (bridges rloc) [mkOrf 8 11 1 0] = false.
+Proof.
+  cbv zeta. split.
+  { right. exists (mkPart 10 30 1), (mkPart 0 9 1). cbn. repeat split; try reflexivity; lia. }
+  split.
+  { split; [discriminate|]. split; [repeat (apply Forall_cons; [cbn; lia|]); apply Forall_nil|]. split; [reflexivity|].
+    cbn. discriminate. }
+  repeat split.
+Qed.
+
